@@ -31,7 +31,7 @@ namespace {
 // ----------------------------------------------------------------------------------------------
 // the table extracted from the .m files by player.py
 
-struct Guard { int idx; std::string type; };
+struct Guard { int idx; std::string type; int dim = 0; size_t extent = 0; };   // dim != 0: size(varargin{idx},dim)==extent
 struct Overload { int nargs; std::vector<Guard> guards; int id; int nout; };
 struct ClassDef {
   std::string name, parent;            // parent == "handle" for roots
@@ -60,8 +60,16 @@ std::vector<Guard> parseGuards(const std::string& g) {
   std::vector<Guard> out;
   if (g == "-") return out;
   for (auto& t : split(g, ',')) {
+    auto h = t.find('#');
+    if (h != std::string::npos) {
+      auto e = t.find('=');
+      Guard g; g.idx = std::stoi(t.substr(0, h)); g.dim = std::stoi(t.substr(h + 1, e - h - 1)); g.extent = std::stoull(t.substr(e + 1));
+      out.push_back(g);
+      continue;
+    }
     auto p = t.find(':');
-    out.push_back({std::stoi(t.substr(0, p)), t.substr(p + 1)});
+    Guard g; g.idx = std::stoi(t.substr(0, p)); g.type = t.substr(p + 1);
+    out.push_back(g);
   }
   return out;
 }
@@ -129,8 +137,15 @@ bool isa(const mxArray* v, const std::string& type) {
 
 bool matches(const Overload& o, const std::vector<mxArray*>& args) {
   if ((int)args.size() != o.nargs) return false;
-  for (auto& g : o.guards)
-    if (g.idx < 1 || g.idx > (int)args.size() || !isa(args[g.idx - 1], g.type)) return false;
+  for (auto& g : o.guards) {
+    if (g.idx < 1 || g.idx > (int)args.size()) return false;
+    const mxArray* a = args[g.idx - 1];
+    if (g.dim != 0) {
+      if (mock::isObject(a)) { if (g.extent != 1) return false; continue; }    // a handle object is 1-by-1
+      size_t ext = g.dim == 1 ? mxGetM(a) : g.dim == 2 ? mxGetN(a) : 1;
+      if (ext != g.extent) return false;
+    } else if (!isa(a, g.type)) return false;
+  }
   return true;
 }
 
@@ -314,6 +329,16 @@ mxArray* parseArg(const std::string& t) {
     return a;
   }
   if (t[0] == 's') return mxCreateString(t.substr(1).c_str());
+  if (t[0] == 'S') return mock::makeCharColumn(t.substr(1));      // s(:) : the same characters as an N-by-1 char array
+  if (t[0] == 'm') {                                                // m<rows>x<cols>:<v,v,...> double array, column-major
+    auto x = t.find('x'); auto c = t.find(':');
+    size_t rows = std::stoull(t.substr(1, x - 1)), cols = std::stoull(t.substr(x + 1, c - x - 1));
+    mxArray* a = mxCreateDoubleMatrix(rows, cols, mxREAL);
+    double* d = mxGetPr(a);
+    size_t k = 0;
+    if (c + 1 < t.size()) for (auto& v : split(t.substr(c + 1), ',')) if (k < rows * cols) d[k++] = std::stod(v);
+    return a;
+  }
   if (t[0] == 'h') {
     int id = std::stoi(t.substr(1));
     if (id < 0 || id >= (int)g_objs.size() || !g_objs[id].valid) throw MatlabError("Invalid or deleted object.");
